@@ -32,6 +32,18 @@ inline std::string geoid_image() {
   for (int i = 0; i < 12; ++i) { unsigned v = 30000 + 911 * i; h += char(v >> 8); h += char(v & 0xff); }
   return h;
 }
+// a w x h raster (w even, h odd) with a non-linear height field, so that different cells interpolate to different values
+inline std::string geoid_image_wh(int w, int h) {
+  std::string s = "P5\n# Geoid file in PGM format for the GeographicLib::Geoid class\n# Description tiny " + std::to_string(w) + "x" + std::to_string(h) + "\n# DateTime 2020-01-01 00:00:00\n"
+                  "# MaxBilinearError 0.1\n# RMSBilinearError 0.01\n# MaxCubicError 0.05\n# RMSCubicError 0.005\n"
+                  "# Offset -108\n# Scale 0.003\n# Origin 90N 0E\n# AREA_OR_POINT Point\n" + std::to_string(w) + " " + std::to_string(h) + "\n65535\n";
+  for (int iy = 0; iy < h; ++iy) for (int ix = 0; ix < w; ++ix) {
+    unsigned v = 20000u + 977u * (unsigned)ix + 1531u * (unsigned)iy + 211u * (unsigned)((ix * ix + 3 * iy * iy + ix * iy) % 17);
+    if (iy == 0 || iy == h - 1) v = 20000u + 1531u * (unsigned)iy;          // a single value at each pole
+    s += char(v >> 8); s += char(v & 0xff);
+  }
+  return s;
+}
 inline std::string wmm_meta() {
   return "WMMF-2\n# A tiny magnetic model for fault enumeration\nName tiny\nDescription Tiny Magnetic Model\nURL http://example.org\n"
          "Publisher nobody\nReleaseDate 2020-01-01\nConversionDate 2020-01-02\nDataVersion 1\nRadius 6371200\nNumModels 2\nNumConstants 1\n"
